@@ -203,6 +203,65 @@ def h_setter(ctx, kind, cfg, scen):
     common_checks(ctx, o, b.pdu, b.ref, hdr_len(b.v))
 
 
+def h_refused_setter(ctx, which, cfg, then):
+    """a setter that refuses its argument (the data field would exceed 65535 octets) is still a step of the sequence: the
+    object must come out of it consistent - here: unchanged - and a later valid assignment must give the usual result.
+    then: what follows the refused call ('pack' or 'valid')"""
+    n = 8 if cfg[3] else 4
+    if which == "filedata-data":
+        b = build(ctx, "filedata", cfg, dict(ndata=2))
+        vals = b.extra["vals"]
+        o, attr, big = b.pdu, "file_data", bytes(65536)
+        final = dict(ndata=2)
+        redo = lambda: setattr(o, "file_data", vals["data"])  # noqa: E731
+    elif which == "filedata-meta":
+        data = bytes((i * 7) & 0xFF for i in range(65500))
+        conf, v = sym_conf(ctx, cfg[0], cfg[1], crc=cfg[2], large=cfg[3])
+        off = ctx.int("offset", 0, (1 << (8 * n)) - 1)
+        o, attr, big = FileDataPdu(conf, FileDataParams(data, off, None)), "segment_metadata", SegmentMetadata(0, bytes(63))
+        b = None
+        ref = assemble(ctx, "filedata", v, be(off, n) + list(data), seg_meta=0, pdu_type=1)
+        redo = lambda: setattr(o, "segment_metadata", None)  # noqa: E731
+    elif which == "metadata-options":
+        b = build(ctx, "metadata", cfg, dict(nopts=1, optlen=1))
+        vals = b.extra["vals"]
+        o, attr, big = b.pdu, "options", [CfdpTlv(2, bytes(255)) for _ in range(256)]
+        redo = lambda: setattr(o, "options", vals["opts"])  # noqa: E731
+    elif which == "nak-segments":
+        b = build(ctx, "nak", cfg, dict(nseg=1))
+        vals = b.extra["vals"]
+        o, attr, big = b.pdu, "segment_requests", [(1, 2)] * (65536 // (2 * n) + 1)
+        redo = lambda: setattr(o, "segment_requests", vals["segs"])  # noqa: E731
+    else:
+        b = build(ctx, "finished", cfg, dict(nresp=1))
+        vals = b.extra["vals"]
+        o, attr = b.pdu, "file_store_responses"
+        big = [FileStoreResponseTlv(FilestoreActionCode.CREATE_FILE_SNM, FilestoreResponseStatusCode.CREATE_SUCCESS, "a" * 250) for _ in range(300)]
+        redo = lambda: setattr(o, "file_store_responses", vals["resps"])  # noqa: E731
+    if b is not None:
+        ref = b.ref
+    before = o.pack()
+    ctx.holds("before: octets == reference layout", before == ctx.bytes_of(ref))
+    e, _ = call(setattr, o, attr, big)
+    ctx.holds("an assignment that would push the data field beyond 65535 octets is refused with ValueError", isinstance(e, ValueError), exc_name(e))
+    if then == "valid":
+        e, _ = call(redo)
+        if e is not None:
+            ctx.fail("valid assignment after a refused one raised", exc_name(e))
+            return
+    e, raw = call(o.pack)
+    what = "after a refused assignment%s" % (" followed by a valid one" if then == "valid" else "")
+    if then == "pack" and isinstance(e, ValueError):
+        ctx.reach("pack refuses too")       # also consistent: nothing is emitted for the oversize state
+        return
+    hl = len(ref) - (((ref[1] << 8) | ref[2]))
+    ctx.holds(what + ": reported length == number of packed octets, length field == octets after the header",
+              e is None and sym_and(o.packet_len == len(raw), ((raw[1] << 8) | raw[2]) == len(raw) - hl),
+              exc_name(e) if e is not None else "packet_len=%s len(pack)=%s" % (o.packet_len, len(raw)))
+    if then == "valid":
+        ctx.holds(what + ": octets == reference layout of the final values", e is None and raw == ctx.bytes_of(ref))
+
+
 def h_finished_omitted_fault_location(ctx, cfg, via):
     """a fault location on a Finished PDU whose condition code ('no error' / 'unsupported checksum type') makes pack() omit it:
     the reported length must still be the packed length, whichever way the state was reached"""
@@ -356,6 +415,11 @@ def cases(tier):
             for cfg in cfgs:
                 cs.append(Case("set-%s-%s-%s" % (kind, sn, cname(cfg)), "setter-" + kind, h_setter, dict(kind=kind, cfg=cfg, scen=sc),
                                budget=900, bounds="%s PDU, setter scenario %s, config %s, all values" % (kind, sc, cname(cfg))))
+    for which in ("filedata-data", "filedata-meta", "metadata-options", "nak-segments", "finished-responses"):
+        for cfg in tier_pick(tier, [(1, 1, 0, 0), (2, 2, 1, 1)], [(1, 1, 0, 0), (2, 2, 1, 1), (1, 1, 1, 0), (8, 8, 0, 1)]):
+            for then in ("pack", "valid"):
+                cs.append(Case("refused-%s-%s-then-%s" % (which, cname(cfg), then), "refused", h_refused_setter, dict(which=which, cfg=cfg, then=then),
+                               budget=900, bounds="%s: a refused oversize assignment, then %s; config %s, all field values" % (which, then, cname(cfg))))
     for kind in KINDS:
         for vn, var in variants(kind, "quick")[:3]:
             for cfg in cfgs[:2] + cfgs[-1:]:
